@@ -13,7 +13,7 @@ def s_len(lmax=64, lmin=1):
     return st.one_of(st.sampled_from(pool), st.integers(lmin, lmax))
 
 
-FAMS = ["smallint", "unif", "gauss", "const", "spike", "lead0", "ramp"]
+FAMS = ["smallint", "unif", "gauss", "const", "spike", "lead0", "ramp", "alt", "periodic", "sorted", "sym"]
 
 
 @st.composite
